@@ -11,6 +11,7 @@ tie        : (T) Gen/Precedence.lean, Gen/IntEnc.lean regenerated from /repo on 
 import glob
 import json
 import os
+import re
 import time
 
 from vlib import common, proggen, c03gen
@@ -458,7 +459,17 @@ def check(ctx):
     prop = Prop()
     regen = c03gen.regenerate()
     ctx.stats["regenerated"] = {k: (v if not isinstance(v, list) else [list(x) for x in v]) for k, v in regen.items()}
-    proofs_ok, _ = common.proof_side(ctx, PROPS_MODULE, PROPS_FILE, extra_names=TABLE_OBLIGATIONS)
+    proofs_ok, out = common.proof_side(ctx, PROPS_MODULE, PROPS_FILE, extra_names=TABLE_OBLIGATIONS)
+    if not ctx.stats.get("lake_build_ok", True):
+        # say which theorem / table obligation stopped checking (the generic entry only carries the log's tail)
+        errs = [l.strip() for l in out.split("\n") if l.startswith("error:") and ".lean" in l]
+        files = sorted(set(re.findall(r"error: (\S+?\.lean):", out)))
+        hint = ""
+        if any("PrecTable" in f for f in files):
+            hint = " [yyParser.yy no longer orders / associates the binary operators as the language's reference precedence]"
+        if any("IntEnc" in f or "C03.lean" in f for f in files):
+            hint += " [EmitInteger / OP_STORE_INT* tables: a literal no longer round-trips or is not minimally encoded]"
+        ctx.oblige("re-checked theorems over the regenerated tables: " + ", ".join(files) + hint, False, " | ".join(errs[:5])[:1500])
     if ctx.tier == "thorough":
         common.leanchecker(ctx, PROPS_MODULE)
     exe = build(ctx)
